@@ -600,6 +600,24 @@ def run_record(ctx, exe, datadir, gtfile, args, prog_args=(), timeout=40, taskse
     return r.returncode, r.stdout, r.stderr
 
 
+def shm_leftovers(datadir, remove=True):
+    """session ids of the run -> files left in /dev/shm (removed: a cluttered /dev/shm slows everything down)"""
+    left = []
+    try:
+        txt = open(os.path.join(datadir, "task.txt")).read()
+    except OSError:
+        return left
+    for sid in set(re.findall(r"sid=([0-9a-f]{16})", txt)):
+        for f in glob.glob("/dev/shm/uftrace-%s-*" % sid):
+            left.append(f)
+            if remove:
+                try:
+                    os.unlink(f)
+                except OSError:
+                    pass
+    return left
+
+
 def check_exact(datadir, exe, gt, nt):
     """C03 monitor on a normally terminated run: every thread's file is exactly its ground truth."""
     syms = sym_ranges(exe)
@@ -742,6 +760,7 @@ def run(ctx):
                 return job, rc, ["program did not start: " + err[-300:]], 0, []
             gt = read_ground_truth(gtf, nt)
             bad, n = check_exact(dd, os.path.join(d, "p"), gt, nt)
+            shm_leftovers(dd)
             if rc != 0:
                 bad.append("uftrace record exited with %d: %s" % (rc, err[-200:]))
             if "LOST" in err:
